@@ -35,7 +35,7 @@ def run(case, ctx: Ctx, chooser: Chooser):
     res, mon = wfcase.run_case(case, ctx, chooser)
     W = case["W"]
     n_edges = sum(len(c["refs"]) for c in W["components"])
-    full = {"W": W, "script": case["script"], "memo": case.get("memo", []), "late": case.get("late") or {},
+    full = {"W": W, "script": case["script"], "memo": case.get("memo", []), "late": case.get("late") or {}, "lockpass": case.get("lockpass") or [],
             "choices": list(chooser.log)}
     if mon.violations:
         sig, msg = mon.violations[0]
